@@ -86,7 +86,18 @@ func c13OpIndex(name string) int {
 			return i
 		}
 	}
+	var st int
+	if n, _ := fmt.Sscanf(name, "WriteHeader(%d)", &st); n == 1 && st >= 100 && st <= 999 {
+		return st // ops 100..999 are WriteHeader with that status (the status sweep)
+	}
 	return -1
+}
+
+func c13OpName(op int) string {
+	if op >= 100 {
+		return fmt.Sprintf("WriteHeader(%d)", op)
+	}
+	return c13OpNames[op]
 }
 
 // c13Exec replays ops on a fresh real writer and a fresh model, comparing after every step.
@@ -114,6 +125,11 @@ func c13Exec(method string, flusher bool, ops []int) (key string, bad string) {
 	}
 	for step, op := range ops {
 		wantN, gotN := -1, -1
+		switch {
+		case op >= 100:
+			w.WriteHeader(op)
+			m.writeHeader(op)
+		}
 		switch op {
 		case 0:
 			w.WriteHeader(201)
@@ -140,7 +156,7 @@ func c13Exec(method string, flusher bool, ops []int) (key string, bad string) {
 			gotN, _ = w.Write([]byte("c"))
 			wantN = m.write("c")
 		}
-		at := fmt.Sprintf("after step %d (%s)", step+1, c13OpNames[op])
+		at := fmt.Sprintf("after step %d (%s)", step+1, c13OpName(op))
 		// a HEAD writer may report the bytes as accepted (as net/http does) or as 0: the statement only
 		// fixes what is forwarded and what Size() reports
 		if gotN != wantN && !(method == http.MethodHead && wantN == 0) {
@@ -199,7 +215,7 @@ func c13Exec(method string, flusher bool, ops []int) (key string, bad string) {
 func c13Names(ops []int) []string {
 	out := make([]string, len(ops))
 	for i, o := range ops {
-		out[i] = c13OpNames[o]
+		out[i] = c13OpName(o)
 	}
 	return out
 }
@@ -211,7 +227,7 @@ func c13Run(r *core.Run) {
 		depth, treeDepth = 9, 7
 		r.SetBudget(9 * time.Minute)
 	}
-	r.Rule = "engine B: BFS over histories of {WriteHeader(201),WriteHeader(404),Write(ab),Write(''),Flush,Before(h1),Before(h2),Write(c)} replayed on a fresh flamego.NewResponseWriter over a spy; state key = (status,size,pending hooks,what the spy received,hook observations); model+invariants compared after every transition; non-trivial = transition taken when a status had already been sent or a hook was pending (the cases where 'once' logic matters)"
+	r.Rule = "engine B: BFS over histories of {WriteHeader(201),WriteHeader(404),Write(ab),Write(''),Flush,Before(h1),Before(h2),Write(c)} replayed on a fresh flamego.NewResponseWriter over a spy; state key = (status,size,pending hooks,what the spy received,hook observations); model+invariants compared after every transition; plus a status sweep (every status 100..999 in place of 201 in all short sequences, compared step by step); non-trivial = transition taken when a status had already been sent or a hook was pending (the cases where 'once' logic matters)"
 	r.Bounds["bfs_depth"] = depth
 	r.Bounds["undeduplicated_tree_depth"] = treeDepth
 	r.Bounds["methods"] = []string{"GET", "HEAD", "POST"}
@@ -274,6 +290,51 @@ func c13Run(r *core.Run) {
 	}
 	r.Notes["bfs_depth_completed"] = completed
 	r.Merge(total)
+	// status sweep: every status 100..999 in place of 201 in every sequence of up to sweepDepth operations
+	sweepDepth := 3
+	if r.Thorough() {
+		sweepDepth = 4
+	}
+	r.Bounds["status_sweep"] = fmt.Sprintf("every status 100..999 substituted for 201 in every sequence of <=%d operations that contains it", sweepDepth)
+	r.Parallel(func(wk, nw int, l *core.Local) {
+		for st := 100 + wk; st <= 999; st += nw {
+			if r.Expired() {
+				return
+			}
+			for _, method := range []string{"GET", "HEAD"} {
+				for _, fl := range []bool{false, true} {
+					var rec func(hist []int, has bool)
+					rec = func(hist []int, has bool) {
+						if len(hist) > 0 && has {
+							l.Evals++
+							l.Traces++
+							l.Transitions++
+							l.NonTrivial++
+							l.Extra["status_sweep_sequences"]++
+							if _, bad := c13Exec(method, fl, hist); bad != "" {
+								l.Class("mismatch")
+								l.Violate(fmt.Sprintf("rw-model-mismatch/%s/status-sweep/%dxx", method, st/100), bad,
+									c13Case{Method: method, Flusher: fl, Ops: c13Names(hist)})
+								return
+							}
+							l.Class(fmt.Sprintf("sweep:%dxx", st/100))
+						}
+						if len(hist) == sweepDepth {
+							return
+						}
+						for op := 0; op < len(c13OpNames); op++ {
+							o := op
+							if op == 0 {
+								o = st
+							}
+							rec(append(hist[:len(hist):len(hist)], o), has || op == 0)
+						}
+					}
+					rec(nil, false)
+				}
+			}
+		}
+	})
 }
 
 func c13Replay(raw json.RawMessage) (bool, string) {
